@@ -6,6 +6,8 @@ for d in sorted(glob.glob('/verif/seeded/*/')):
     name = os.path.basename(d.rstrip('/'))
     m = json.load(open(d + 'meta.json'))
     res = '; '.join('%s: %s' % (k, v) for k, v in m['checks_run_against_it'].items())
+    if m.get('obsolete'):
+        res += '; OBSOLETE: ' + m['obsolete']
     esc = lambda s: s.replace('|', '\\|').replace('\n', ' ').replace("'", "\\x27")
     rows.append('| `%s` | %s | %s | %s |' % (name, m['property'], esc(m['needs_to_manifest']), esc(res)))
 p = '/verif/DESIGN.md'
